@@ -423,14 +423,16 @@ pub fn on_run_alignment(g: &mut G) -> Scenario {
         // message taken), then on_run performs k immediately-ready budgeted operations and completes; b + k is
         // placed around 128 so that the budget runs out exactly when on_run finishes; another message arrives
         // at the same virtual instant
-        let b = g.range(118, 128);
+        let b = g.range(116, 127);
         let k = (128 - b) as i64 + g.range(0, 2) as i64 - 1;
         let out = match g.below(3) {
             0 => RunOut::Err(90),
             1 => RunOut::True,
             _ => RunOut::False,
         };
-        a.on_run = vec![RunScript { steps: vec![Op::ConsumeBudget(k.max(0) as u32)], out }];
+        // invocation 0 is asleep when the burst arrives (the arriving message cancels it); invocation 1 is
+        // created and polled right after the burst, in the same poll of the actor task
+        a.on_run = vec![RunScript { steps: vec![Op::Sleep(100)], out: RunOut::True }, RunScript { steps: vec![Op::ConsumeBudget(k.max(1) as u32)], out }];
         if g.chance(500) {
             a.on_run.push(RunScript { steps: vec![Op::Sleep(3)], out: RunOut::False });
         }
